@@ -100,7 +100,9 @@ def do_op(hub, model, op):
         else:
             if not isinstance(got, int) or not (0 <= got < 1 << (8 * size)):
                 raise Violation('read returned out-of-range %r' % (got,))
-            if n == size and got.to_bytes(size, 'little') != bytes(m[a - b:a - b + n]):
+            # the bytes that exist in the device appear little-endian at the low end of the value, also when the access runs past the device end
+            # (what the missing bytes read as is not specified by the property and not checked)
+            if got.to_bytes(size, 'little')[:n] != bytes(m[a - b:a - b + n]):
                 raise Violation('read %s returned %#x, model %s' % (op, got, bytes(m[a - b:a - b + n]).hex()))
     check_state(hub, model, allow)
     if i is not None and (e - a) <= 8:
@@ -266,6 +268,23 @@ def shard_sweep(idx):
     return acc
 
 
+def edge_check(case):
+    from vf import e1
+    cpu = e1.build(case)
+    pre = target.snapshot(cpu)
+    for _s in range(2):
+        e = target.step_budget(cpu)
+        if e is not None and not target.escape_ok(e):
+            return 'host error %s: %s' % (type(e).__name__, e)
+    post = target.snapshot(cpu)
+    for i, (b_, n_) in enumerate(case['mems']):
+        if len(post['mem%d' % i]) != n_:
+            return 'resized: device %d now %d bytes (was %d)' % (i, len(post['mem%d' % i]), n_)
+    if post['mem1'] != pre['mem1'] and (post['cpsr'] & 31) == (pre['cpsr'] & 31):
+        return 'device 1 (vectors) changed by an access aimed at the end of another device'
+    return None
+
+
 def shard_edge_steps(seed, count):
     """through emulate_cycle(): instruction fetch and data accesses at the last bytes of a device (incl. a 32-bit fetch with only two
     bytes left and accesses running past the end) never resize a device, never touch another device, never raise a host error"""
@@ -289,21 +308,7 @@ def shard_edge_steps(seed, count):
                 'state': {'R.PC': pc, 'cpsr': gen.cpsr_value(m=0b10011, t=1 if thumb else 0, e=rng.getrandbits(1)), 'sctlr': rng.choice((0, 1 << 22, 2)),
                           'R.R1usr': base, 'R.R2usr': rng.getrandbits(32), 'R.R3usr': rng.getrandbits(32), 'R.R0usr': rng.getrandbits(32)},
                 'poke': [[pc, code.hex()]], 'steps': 2}
-        cpu = e1.build(case)
-        pre = target.snapshot(cpu)
-        bad = None
-        for _s in range(2):
-            e = target.step_budget(cpu)
-            if e is not None and not target.escape_ok(e):
-                bad = 'host error %s: %s' % (type(e).__name__, e)
-                break
-        post = target.snapshot(cpu)
-        if not bad:
-            for i, (b_, n_) in enumerate(case['mems']):
-                if len(post['mem%d' % i]) != n_:
-                    bad = 'resized: device %d now %d bytes (was %d)' % (i, len(post['mem%d' % i]), n_)
-            if not bad and post['mem1'] != pre['mem1'] and (post['cpsr'] & 31) == (pre['cpsr'] & 31):
-                bad = 'device 1 (vectors) changed by an access aimed at the end of another device'
+        bad = edge_check(case)
         acc.case(True, ('edge', thumb, dev, data, off, base, code), cls='edge-step', sample={'thumb': thumb, 'code_device': dev, 'pc': '%#x' % pc,
                                                                                               'data_device': data, 'base': '%#x' % base, 'code': code.hex()})
         if bad:
@@ -334,15 +339,7 @@ def _dispatch(fn, args):
 
 def replay(case, bucket=None):
     if 'edge_case' in case:
-        from vf import e1
-        cpu = e1.build(case['edge_case'])
-        for _ in range(2):
-            e = target.step_budget(cpu)
-            if e is not None and not target.escape_ok(e):
-                return ['host error ' + type(e).__name__]
-        for i, (b_, n_) in enumerate(case['edge_case']['mems']):
-            if len(cpu.mem.memories[i].mem.memory_array) != n_:
-                return ['resized']
-        return []
+        bad = edge_check(case['edge_case'])
+        return [bad] if bad else []
     msg = run_case(case)
     return [msg] if msg else []
